@@ -698,6 +698,15 @@ def codimension_three():
 
 
 @unsupported
+def same_type_and_id_on_two_integration_domains():
+    """two meshes, an integral of the same type and subdomain id over each: the ufcx_form cannot tell them apart"""
+    ufl, _, _ = _U()
+    m1, m2 = mesh("triangle"), mesh("triangle")
+    f, g = ufl.Coefficient(space(m1, "Lagrange", 1)), ufl.Coefficient(space(m2, "Lagrange", 1))
+    return [f * ufl.dx(domain=m1) + g * g * ufl.dx(domain=m2)], {}, "form"
+
+
+@unsupported
 def sum_factorization_without_tensor_product_element():
     ufl, _, _ = _U()
     m = mesh("hexahedron")
